@@ -43,14 +43,18 @@ impl PyScanSim {
         let exact = matches!(sc.matrix, MatrixSpec::Direct { exact: true, .. });
         let tags = format!("host={},tier=python{}", sc.host.as_str(), if l < m { ",L<M" } else { "" });
         alloc::begin_run(sc.alloc);
-        let res: Option<Value> = Python::with_gil(|py| {
-            let helper = env.helper.bind(py);
-            let lm = env.lightmotif.bind(py);
+        fn make_values<'py>(py: Python<'py>, rows: &[[f32; 5]]) -> Bound<'py, PyDict> {
             let values = PyDict::new_bound(py);
             for (j, sym) in ["A", "C", "T", "G", "N"].iter().enumerate() {
                 let col = PyList::new_bound(py, rows.iter().map(|r| r[j] as f64));
                 values.set_item(sym, col).unwrap();
             }
+            values
+        }
+        let res: Option<Value> = Python::with_gil(|py| {
+            let helper = env.helper.bind(py);
+            let lm = env.lightmotif.bind(py);
+            let values = make_values(py, &rows);
             let r = sut(|| {
                 cpu::with_host(sc.host, || {
                     helper
@@ -93,6 +97,7 @@ impl PyScanSim {
         }
         let band = |i: usize| -> bool { !exact && (table.f64s[i] - t as f64).abs() <= table.tol[i] };
         let mut seen: BTreeSet<usize> = BTreeSet::new();
+        let mut scores_bit_exact = true;
         for h in &hits {
             let pos = h[0].as_u64().unwrap_or(u64::MAX) as usize;
             let score: f64 = h[1].as_str().and_then(|s| s.parse().ok()).unwrap_or(f64::NAN);
@@ -110,6 +115,7 @@ impl PyScanSim {
                     o.violate(Violation::new("wrong-score", tags, format!("position {}: score {:e} but the definition gives {:e}", pos, score, want)));
                     return;
                 }
+                scores_bit_exact = false;
                 o.tolerated += 1;
             }
             if !(want >= t) {
@@ -122,12 +128,16 @@ impl PyScanSim {
             }
         }
         let mut expected = 0;
+        let mut ties: Vec<usize> = Vec::new();
         for i in 0..n_pos {
             if table.f32s[i] >= t {
                 expected += 1;
                 if !seen.contains(&i) {
                     if band(i) {
                         o.tolerated += 1;
+                        if ties.len() < 16 {
+                            ties.push(i);
+                        }
                         continue;
                     }
                     o.violate(Violation::new(
@@ -136,6 +146,48 @@ impl PyScanSim {
                         format!("position {} scores {:e} >= threshold {:e} but was never returned ({} hits seen)", i, table.f32s[i], t, seen.len()),
                     ));
                     return;
+                }
+            }
+        }
+        // Ties with the threshold are don't-care because another summation order could decide them
+        // differently - unless the library's own full scoring gives exactly the reference value there and
+        // the scanner demonstrably reports those very values (>= 1 hit, all bit-for-bit): see sims/scan.rs.
+        if !ties.is_empty() && !seen.is_empty() && scores_bit_exact {
+            let lib: Option<Vec<f64>> = Python::with_gil(|py| {
+                let helper = env.helper.bind(py);
+                let lm = env.lightmotif.bind(py);
+                let values = make_values(py, &rows);
+                let r = sut(|| {
+                    cpu::with_host(sc.host, || {
+                        helper
+                            .getattr("lib_scores")
+                            .and_then(|f| f.call1((lm, values, sc.seq.as_str(), ties.clone())))
+                            .and_then(|v| v.extract::<String>())
+                    })
+                });
+                match r {
+                    Ok(Ok(s)) => serde_json::from_str::<Value>(&s)
+                        .ok()
+                        .and_then(|v| v["ok"].as_array().map(|a| a.iter().map(|x| x.as_str().and_then(|s| s.parse().ok()).unwrap_or(f64::NAN)).collect())),
+                    _ => None,
+                }
+            });
+            if let Some(lib) = lib {
+                for (k, &i) in ties.iter().enumerate() {
+                    if lib.get(k).copied() == Some(table.f32s[i] as f64) {
+                        o.violate(Violation::new(
+                            "missing-hit",
+                            format!("{},tie", tags),
+                            format!(
+                                "position {} scores {:e} >= threshold {:e} but was never returned ({} hits seen); the score ties with the threshold within rounding, but ScoringMatrix.calculate of this tree gives exactly this value and every returned hit carried the reference value",
+                                i,
+                                table.f32s[i],
+                                t,
+                                seen.len()
+                            ),
+                        ));
+                        return;
+                    }
                 }
             }
         }
